@@ -17,6 +17,7 @@ import (
 	"os/exec"
 	"sort"
 	"strconv"
+	"strings"
 
 	"github.com/dave/jennifer/jen"
 )
@@ -185,8 +186,13 @@ func freshTwins(h []SysAct, f int) map[int]string {
 	cmd := exec.Command(os.Args[0], "system-twin", strconv.Itoa(f))
 	cmd.Stdin = bytes.NewReader(b)
 	cmd.Env = os.Environ()
+	var errb bytes.Buffer
+	cmd.Stderr = &errb
 	out, err := cmd.Output()
 	if err != nil {
+		if m := errb.String(); strings.Contains(m, "fatal error:") || strings.Contains(m, "goroutine stack exceeds") {
+			return map[int]string{-1: "died"} // the library killed the twin's process: no observation of the twin equals anything
+		}
 		fatal("system-twin failed: " + err.Error())
 	}
 	res := map[int]string{}
@@ -194,6 +200,90 @@ func freshTwins(h []SysAct, f int) map[int]string {
 		fatal("system-twin output: " + err.Error())
 	}
 	return res
+}
+
+// sysReachable: the cells that are part of what is observed.  With k >= 0: the observation h[k] (a File render: the
+// bodies of the File and of the Files added to it; a fragment or plain render: that cell), the graph as it is after
+// h[:k+1].  With k < 0: everything that is ever observed with File f, the graph at the end of h.  Edges as in JenSystem:
+// Add(s), group operands, clone -> original.
+func sysReachable(h []SysAct, k int, f int) map[int]bool {
+	edges, body, fedges := map[int][]int{}, map[int][]int{}, map[int][]int{}
+	n := 0
+	end := k
+	if k < 0 {
+		end = len(h) - 1
+	}
+	roots := []int{}
+	for j := 0; j <= end; j++ {
+		a := h[j]
+		switch a.A {
+		case "NewVar", "NewId", "NewQual", "NewNull":
+			n++
+		case "Clone":
+			n++
+			edges[n] = append(edges[n], a.C)
+		case "AddRef":
+			edges[a.C] = append(edges[a.C], a.D)
+		case "AppGroup":
+			edges[a.C] = append(edges[a.C], a.Refs...)
+		case "FileAdd":
+			body[a.F] = append(body[a.F], a.C)
+		case "FileAddFile":
+			fedges[a.F] = append(fedges[a.F], a.D)
+		case "Frag":
+			// a fragment rendered with a File registers its paths there: what was rendered with the File before is part
+			// of the File's history
+			if (k < 0 && a.F == f) || (k >= 0 && h[k].A != "Plain" && a.F == h[k].F) {
+				roots = append(roots, a.C)
+			}
+		}
+	}
+	withBodies := func(f int) {
+		seenF := map[int]bool{}
+		var walk func(g int)
+		walk = func(g int) {
+			if seenF[g] {
+				return
+			}
+			seenF[g] = true
+			roots = append(roots, body[g]...)
+			for _, x := range fedges[g] {
+				walk(x)
+			}
+		}
+		walk(f)
+	}
+	// (an earlier render of the File registered the paths of its body as it was then: the body belongs to the history of
+	// every observation made with the File, a fragment render included)
+	if k < 0 {
+		withBodies(f)
+	} else if h[k].A == "Render" {
+		withBodies(h[k].F)
+	} else if h[k].A == "Frag" {
+		withBodies(h[k].F)
+		roots = append(roots, h[k].C)
+	} else {
+		roots = append(roots, h[k].C)
+	}
+	out := map[int]bool{}
+	var visit func(c int)
+	visit = func(c int) {
+		if out[c] {
+			return
+		}
+		out[c] = true
+		for _, d := range edges[c] {
+			visit(d)
+		}
+	}
+	for _, c := range roots {
+		visit(c)
+	}
+	return out
+}
+
+func sysIsAppend(a string) bool {
+	return a == "AppId" || a == "AppDot" || a == "AppQual" || a == "AppGroup" || a == "AddRef"
 }
 
 func cmdSystemTwin(args []string) {
@@ -204,11 +294,15 @@ func cmdSystemTwin(args []string) {
 		fatal(err)
 	}
 	contains := sysContains(h)
+	rel := sysReachable(h, -1, f)
 	u := &sysUniverse{}
 	res := map[int]string{}
 	for k, a := range h {
 		if a.A == "Plain" || (a.F != 0 && a.F != f && !(contains[f][a.F] && (a.A == "FileAdd" || a.A == "FileAddFile"))) {
 			continue
+		}
+		if sysIsAppend(a.A) && !rel[a.C] {
+			continue // an append to a statement that is never part of anything observed with this File
 		}
 		if o := u.apply(a); o != nil {
 			res[k] = o.status + ":" + Hash(o.out)
@@ -296,11 +390,16 @@ func ReplaySystem(tw *TraceWriter, id int, h []SysAct) {
 		}
 		if o != nil {
 			nobs++
-			// the isolated twin: only the heap operations and this File's own calls
+			// the isolated twin: only this File's own calls and the heap operations on statements that are part of what is
+			// observed (statements are still all created, so that the numbering stays; appends to others are left out)
 			tu := &sysUniverse{}
 			var to *sysObs
+			rel := sysReachable(h, k, 0)
 			for j := 0; j <= k; j++ {
 				b := h[j]
+				if sysIsAppend(b.A) && !rel[b.C] {
+					continue // an append to a statement that is not part of what is observed (a sibling clone, say)
+				}
 				if (b.F != 0 && b.F != a.F && !(contains[a.F][b.F] && (b.A == "FileAdd" || b.A == "FileAddFile"))) || (a.A == "Plain" && b.F != 0) || (b.A == "Plain" && j < k) {
 					continue
 				}
@@ -416,7 +515,7 @@ func randomSystemHistory(r *rand.Rand, nops int) []SysAct {
 		}
 	}
 	newCell := func() int { cells = append(cells, cellInfo{map[int]bool{len(cells) + 1: true}}); return len(cells) }
-	hintNames := []string{"d", "d1", ".", "q", "rand", "go", "pkg_d"}
+	hintNames := []string{"d", "d1", ".", "q", "rand", "go", "pkg_d", ""}
 	if r.Intn(3) == 0 {
 		// templates: chains of clones (a clone of a clone of ...) that are extended, passed as operands to groups of other
 		// chains, and extended again behind the group:  tmpl.Clone().Clone().Call(arg.Clone().Clone()).Dot(x)
@@ -494,6 +593,37 @@ func randomSystemHistory(r *rand.Rand, nops int) []SysAct {
 			}
 		}
 		obsv()
+		if r.Intn(2) == 0 {
+			// ... or a CLONE of the (still empty) placeholder is filled and used as an operand: a statement whose first item
+			// renders nothing is not itself nothing
+			q := newCell()
+			for x := range cells[p-1].reach {
+				cells[q-1].reach[x] = true
+			}
+			h = append(h, SysAct{A: "Clone", C: p})
+			if r.Intn(2) == 0 {
+				h = append(h, SysAct{A: "AppId", C: q, N: fresh()})
+			} else {
+				pp := sysPaths[r.Intn(len(sysPaths))]
+				h = append(h, SysAct{A: "AppQual", C: q, P: pp, N: sysSym(pp)})
+			}
+			o2 := newCell()
+			h = append(h, SysAct{A: "NewId", N: fresh()})
+			addReach(o2, q)
+			if r.Intn(2) == 0 {
+				h = append(h, SysAct{A: "AddRef", C: o2, D: q})
+			} else {
+				h = append(h, SysAct{A: "AppGroup", C: o2, D: r.Intn(2), N: []string{"call", "index", "list"}[r.Intn(3)], Refs: []int{q}})
+			}
+			h = append(h, SysAct{A: "Plain", C: o2})
+			if r.Intn(2) == 0 {
+				c2 := newCell()
+				for x := range cells[o2-1].reach {
+					cells[c2-1].reach[x] = true
+				}
+				h = append(h, SysAct{A: "Clone", C: o2}, SysAct{A: "Frag", F: 1, C: c2})
+			}
+		}
 		switch r.Intn(3) {
 		case 0:
 			h = append(h, SysAct{A: "AppId", C: p, N: fresh()})
@@ -518,7 +648,7 @@ func randomSystemHistory(r *rand.Rand, nops int) []SysAct {
 			if r.Intn(2) == 0 {
 				h = append(h, SysAct{A: "Canonical", F: f, P: []string{"example.com/canon", "example.com/v2"}[r.Intn(2)]})
 			} else {
-				h = append(h, SysAct{A: "Preamble", F: f, N: []string{"#include <a.h>", "int f();\nint g();", "#cgo LDFLAGS: -lm"}[r.Intn(3)]})
+				h = append(h, SysAct{A: "Preamble", F: f, N: []string{"#include <a.h>", "int f();\nint g();", "#cgo LDFLAGS: -lm", "#include <math.h>\n"}[r.Intn(4)]})
 			}
 		case k < 2 || nc == 0:
 			switch r.Intn(4) {
@@ -568,6 +698,10 @@ func randomSystemHistory(r *rand.Rand, nops int) []SysAct {
 		case k < 13:
 			key := fmt.Sprint(f, p)
 			n := hintNames[r.Intn(len(hintNames))]
+			if n == "" { // claims nothing: withdraws an earlier hint
+				h = append(h, SysAct{A: "ImportName", F: f, P: p, N: n})
+				continue
+			}
 			if n == "." || StdName(p) != "" && n != StdName(p) {
 				continue
 			}
@@ -619,8 +753,12 @@ func cmdSystem(args []string) {
 	sorted := append([]string{}, sysPaths...)
 	sort.Strings(sorted)
 	tw.Emit(Rec{"ev": "Universe", "paths": info, "sorted": sorted})
-	id := 0
 	seen := map[string]bool{}
+	items := []json.RawMessage{}
+	add := func(h []SysAct) {
+		b, _ := json.Marshal(h)
+		items = append(items, b)
+	}
 	for i := 2; i < len(args); i++ {
 		if args[i] == "--random" {
 			n, _ := strconv.Atoi(args[i+1])
@@ -628,8 +766,7 @@ func cmdSystem(args []string) {
 			i += 2
 			r := newRand(777)
 			for j := 0; j < n; j++ {
-				id++
-				ReplaySystem(tw, id, randomSystemHistory(r, ops))
+				add(randomSystemHistory(r, ops))
 			}
 			continue
 		}
@@ -640,9 +777,26 @@ func cmdSystem(args []string) {
 			seen[string(line)] = true
 			var h []SysAct
 			decodeTLCLine(line, &h)
-			id++
-			ReplaySystem(tw, id, h)
+			add(h)
 		})
 	}
+	// the behaviours are executed by child processes (crash containment, see common.go)
+	runContained(tw, "system-batch", items, 1, 60)
 	tw.Close(args[1])
+}
+
+func cmdSystemBatch(args []string) {
+	// usage: system-batch <trace part> <stats part> <first id>   (the behaviours as a JSON array on stdin)
+	tw := NewTraceWriter(args[0])
+	id, _ := strconv.Atoi(args[2])
+	var hs [][]SysAct
+	in, _ := io.ReadAll(os.Stdin)
+	if err := json.Unmarshal(in, &hs); err != nil {
+		fatal(err)
+	}
+	for _, h := range hs {
+		ReplaySystem(tw, id, h)
+		id++
+	}
+	tw.CloseChild(args[1])
 }
